@@ -514,12 +514,19 @@ Qed.
 Lemma ftype_ok_gus : forall a, function_type_from_am [a] "gto" "spherical" = inr (gus_ftype [a]).
 Proof. intros a. reflexivity. Qed.
 
-Lemma parse_shells_blocks : forall shs fuel, Forall shell_wf shs -> List.length (flat_map gblk shs) <= fuel ->
-  gus_parse_shells fuel (flat_map gblk shs) = inr (gus_back_shells shs).
+(* a tail behind the shells of an element block (the ECP part behind the last element, Proofs/GamessUsEcpSpec.v): the
+   `while` loop of the shells ends at the first line that is not a shell header, nothing behind it is looked at *)
+Definition no_shell_head (tail : list string) : Prop :=
+  match tail with [] => True | l :: _ => match_shell_block l = None end.
+
+Lemma parse_shells_blocks_tail : forall shs tail fuel, Forall shell_wf shs -> no_shell_head tail ->
+  List.length (flat_map gblk shs ++ tail) <= fuel ->
+  gus_parse_shells fuel (flat_map gblk shs ++ tail) = inr (gus_back_shells shs).
 Proof.
-  induction shs as [|s shs IH]; intros fuel H Hf.
-  - destruct fuel; reflexivity.
-  - inversion H as [|? ? Hs Hshs]; subst. cbn [flat_map] in *. unfold gblk at 1 in Hf. unfold gblk at 1.
+  induction shs as [|s shs IH]; intros tail fuel H Ht Hf.
+  - cbn [flat_map app gus_back_shells]. destruct fuel as [|f]; [reflexivity|]. destruct tail as [|l tail]; [reflexivity|].
+    cbn [gus_parse_shells]. cbn [no_shell_head] in Ht. rewrite Ht. reflexivity.
+  - inversion H as [|? ? Hs Hshs]; subst. cbn [flat_map] in *. rewrite <- app_assoc in *. unfold gblk at 1 in Hf. unfold gblk at 1.
     cbn [app List.length] in Hf. rewrite app_length in Hf. destruct fuel as [|f]; [lia|].
     cbn [app gus_parse_shells gus_back_shells].
     destruct (shell_wf_parts s Hs) as [Ea [Hr [Ec [Hlen [HfC [HpC HfE]]]]]].
@@ -528,20 +535,32 @@ Proof.
     destruct (gus_letter_back (gl s)) as [a|] eqn:Eb.
     + destruct Hback as [Hin Eam]. rewrite Hin, Eam. unfold bind at 1. rewrite ftype_ok_gus. unfold bind at 1.
       rewrite nat_str_val, Nat2Z.id.
-      pose proof (read_prims_rows (List.length (exps s)) 1 (exps s) (gcol s) (flat_map gblk shs) eq_refl Hlen ltac:(lia) HfE HfC HpC)
-        as Hrd.
+      pose proof (read_prims_rows (List.length (exps s)) 1 (exps s) (gcol s) (flat_map gblk shs ++ tail) eq_refl Hlen ltac:(lia)
+                                  HfE HfC HpC) as Hrd.
       change (1 - 1)%Z with 0%Z in Hrd. unfold grows, gtrip. rewrite Hrd. unfold bind at 1. cbn [fst snd].
-      rewrite (IH f Hshs ltac:(lia)). reflexivity.
+      rewrite (IH tail f Hshs Ht ltac:(lia)). reflexivity.
     + rewrite Hback. reflexivity.
+Qed.
+
+Lemma parse_shells_blocks : forall shs fuel, Forall shell_wf shs -> List.length (flat_map gblk shs) <= fuel ->
+  gus_parse_shells fuel (flat_map gblk shs) = inr (gus_back_shells shs).
+Proof.
+  intros shs fuel H Hf. rewrite <- (app_nil_r (flat_map gblk shs)) in *. apply parse_shells_blocks_tail; [exact H | exact I | exact Hf].
+Qed.
+
+Lemma parse_section_gus_tail : forall zs tail d, el_wf zs -> no_shell_head tail -> ~ In (fst zs) (map fst d) ->
+  gus_parse_electron_lines (gsec zs ++ tail) d = inr (d ++ [(fst zs, gus_back_shells (snd zs))]).
+Proof.
+  intros [z shs] tail d [Hz Hshs] Ht Hd. cbn [fst snd] in *. destruct (name_facts z Hz) as [_ [_ [_ Hback]]].
+  destruct (name_line_facts _ (gname_line z Hz)) as [_ [_ [Hm _]]].
+  unfold gus_parse_electron_lines, gsec. cbn [fst snd app]. rewrite Hm, Hback. unfold bind at 1.
+  rewrite (existsb_Zeqb_false z _ Hd), (parse_shells_blocks_tail shs tail _ Hshs Ht (le_n _)). reflexivity.
 Qed.
 
 Lemma parse_section_gus : forall zs d, el_wf zs -> ~ In (fst zs) (map fst d) ->
   gus_parse_electron_lines (gsec zs) d = inr (d ++ [(fst zs, gus_back_shells (snd zs))]).
 Proof.
-  intros [z shs] d [Hz Hshs] Hd. cbn [fst snd] in *. destruct (name_facts z Hz) as [_ [_ [_ Hback]]].
-  destruct (name_line_facts _ (gname_line z Hz)) as [_ [_ [Hm _]]].
-  unfold gus_parse_electron_lines, gsec. cbn [fst snd]. rewrite Hm, Hback. unfold bind at 1.
-  rewrite (existsb_Zeqb_false z _ Hd), (parse_shells_blocks shs _ Hshs (le_n _)). reflexivity.
+  intros zs d H Hd. rewrite <- (app_nil_r (gsec zs)). apply parse_section_gus_tail; [exact H | exact I | exact Hd].
 Qed.
 
 Lemma sections_parse_gus : forall els d, Forall el_wf els -> NoDup (map fst els) ->
